@@ -11,6 +11,10 @@
 //   C  hash.Hash64Str(license)                     = reference hash64
 //   D  frames captured on a loopback socket from the public client API
 //      (oneway.GetOneWayTcpClient + Send, per-send license and client license) = reference frame
+//   E  histories on ONE long-lived client (history.go): sends with the default license, per-send
+//      overrides (empty, one character, multi-byte), license changes between sends through the exported
+//      field and through ApplyConfig, packs with different project codes; every frame must be the
+//      reference frame for the license/pcode in effect for that send
 //
 // On a difference the case is shrunk field by field (each field reset to its zero variant while the
 // difference persists); the fields that remain name the failing part in the key.
@@ -304,7 +308,9 @@ func main() {
 	rng := vh.NewRng(env.Seed)
 	rep.Rule = "a case = one pack of the eight listed types with random header/fields/license, generated field-wise (boundary-biased integers, " +
 		"empty/ASCII/multi-byte/long strings, maps of tagged values to depth 2, optional sections present or absent, both header forms); " +
-		"non-trivial = at least one field besides the header differs from its zero value; distinct by driver line"
+		"non-trivial = at least one field besides the header differs from its zero value; distinct by driver line; " +
+		"plus histories of sends on one long-lived client (default license, per-send overrides incl. empty/1-char/multi-byte, " +
+		"license changes by field and by ApplyConfig between sends): non-trivial = more than 3 operations, distinct by operation list"
 
 	if env.Replay != "" {
 		replay(env, rep)
@@ -390,7 +396,7 @@ func main() {
 		default:
 			rep.Count("payload>1KiB")
 		}
-		if i < 8 {
+		if i < 6 {
 			rep.Sample(map[string]string{"line": vh.Clip(r.line, 600), "payload_hex": vh.Clip(vh.Hex(r.goBytes), 300)})
 		}
 		if differs(r) {
@@ -445,6 +451,9 @@ func main() {
 	k := nSock / 4
 	socketPhase(env, rep, cases[:k], res[:k], genLicense(rng)+"#", false, "client-license")
 
+	// ---- E: histories of sends on one long-lived client (license changes between sends, per-send overrides)
+	historyPhase(env, rep, vh.NewRng(env.Seed*0x9E3779B9+0xC05))
+
 	rep.Note("phase A: %d packs (%d per type); phase D: %d + %d frames captured on loopback", len(cases), perType, nSock, k)
 	rep.Write(env.Out)
 }
@@ -458,6 +467,7 @@ func replay(env *vh.Env, rep *vh.Report) {
 		vh.Die("replay: %v", err)
 	}
 	var rf struct {
+		Key   string `json:"key"`
 		Seed  uint64 `json:"seed"`
 		Tier  string `json:"tier"`
 		Cases []struct {
@@ -467,6 +477,13 @@ func replay(env *vh.Env, rep *vh.Report) {
 	}
 	if err := json.Unmarshal(raw, &rf); err != nil {
 		vh.Die("replay: %v", err)
+	}
+	if strings.HasPrefix(rf.Key, "OneWayTcpClient.history") {
+		// histories are generated from their own stream of the seed: re-run them all
+		env.Seed, env.Thorough = rf.Seed, rf.Tier == "thorough"
+		rep.Rule = "replay of the send histories of the recorded seed"
+		historyPhase(env, rep, vh.NewRng(rf.Seed*0x9E3779B9+0xC05))
+		return
 	}
 	rng := vh.NewRng(rf.Seed)
 	perType := 150
